@@ -43,17 +43,17 @@ func (l *Loc) extend(s Step, t types.Type) *Loc {
 
 // Val is a symbolic Go value: one SMT term per leaf of its type.
 type Val struct {
-	Typ types.Type
-	L   []string
-	Loc *Loc // for pointer values whose target is known structurally
-	Dyn *Val // interface values: the dynamic value when statically known
+	Typ    types.Type
+	L      []string
+	Loc    *Loc          // for pointer values whose target is known structurally
+	Dyn    *Val          // interface values: the dynamic value when statically known
 	Fn     *ssa.Function // function values with a statically known body
 	Binds  []Val         // closure bindings
 	Tuple  []Val         // tuple values (multi-result calls, comma-ok forms)
 	NonNil bool          // reference known to be non-nil
 	Str    *string       // string constants
-	Home *State // specification values taken from one side of a pair lemma: the state to read them in
-	Back *Loc // slice values: the array location backing the slice when it is a view of an array variable/field
+	Home   *State        // specification values taken from one side of a pair lemma: the state to read them in
+	Back   *Loc          // slice values: the array location backing the slice when it is a view of an array variable/field
 }
 
 func (v Val) t() string {
